@@ -99,13 +99,13 @@ Theorem C06_cancel_leaves_temp_refuted :
     let s := run c s0 ops in
     (0 <= fst sm /\ 0 <= snd sm) /\ (0 <= fst um /\ 0 <= snd um) /\
     snd (step c s (OCancel who p)) = true /\               (* the cancellation is accepted *)
-    let s' := run c s0 (ops ++ [OCancel who p; ONewBlock (t0 + 1000); ONewBlock (t0 + 2000)]) in
+    let s' := run c s0 (ops ++ [OCancel who p; ONewBlock (t0 + 1000) 100; ONewBlock (t0 + 2000) 100]) in
     is_live s' p = false /\ temp_entry s' a p = Some true /\
     is_sanctioned c s' a = true /\ ~ In a (perm s') /\
     snd (step c s' (OSend a who 1)) = false.               (* and it still cannot move funds *)
 Proof.
-  exists {| c_unsanct := [5%N; 6%N]; c_gov_min := (1000, 20) |}, (300, 0), (400, 0), 1%N, 0, (fun _ => 5000), (fun _ => 100),
-         [OSubmit 0%N [MSanction [1%N]] (300, 0) 200 250], 0%N, 1%N, 1%N.
+  exists {| c_unsanct := [5%N; 6%N]; c_gov_min := (1000, 20); c_exp_min := (5000, 0); c_thr := 500; c_exp_thr := 667; c_veto := 334; c_burn_veto := true; c_burn_quorum := false; c_burn_prevote := false |}, (300, 0), (400, 0), 1%N, 0, (fun _ => 5000), (fun _ => 100),
+         [OSubmit 0%N [MSanction [1%N]] (300, 0) 200 250 false], 0%N, 1%N, 1%N.
   vm_compute. repeat split; try discriminate; try reflexivity. intros [].
 Qed.
 Print Assumptions C06_cancel_leaves_temp_refuted.
@@ -124,19 +124,19 @@ Print Assumptions C06_only_governance.
     passes (vote Yes) and its entries disappear; proposal 1 expires in deposit and its entries
     disappear too. *)
 Example C06_witness :
-  let c := {| c_unsanct := [5%N; 6%N]; c_gov_min := (1000, 20) |} in
+  let c := {| c_unsanct := [5%N; 6%N]; c_gov_min := (1000, 20); c_exp_min := (5000, 0); c_thr := 500; c_exp_thr := 667; c_veto := 334; c_burn_veto := true; c_burn_quorum := false; c_burn_prevote := false |} in
   let s0 := init (300, 10) (400, 0) 1%N 0 (fun _ => 5000) (fun _ => 100) in
-  let h0 := [OSubmit 0%N [MSanction [1%N; 2%N]] (300, 0) 300 400] in
+  let h0 := [OSubmit 0%N [MSanction [1%N; 2%N]] (300, 0) 300 400 false] in
   let h1 := h0 ++ [ODeposit 4%N 1%N (0, 10) 400;
-                   OSubmit 3%N [MUnsanction [1%N]] (1000, 20) 300 100] in
+                   OSubmit 3%N [MUnsanction [1%N]] (1000, 20) 300 100 false] in
   let sa := run c s0 h0 in
   let s1 := run c s0 h1 in
-  let s2 := run c s0 (h1 ++ [OVote 2%N true; ONewBlock 100; ONewBlock 300; ONewBlock 301]) in
+  let s2 := run c s0 (h1 ++ [OVote 2%N (1000, 0, 0, 0); ONewBlock 100 100; ONewBlock 300 100; ONewBlock 301 100]) in
   (is_sanctioned c sa 1%N, temps sa) = (false, []) /\
   (is_sanctioned c s1 1%N, is_sanctioned c s1 2%N, temp_entry s1 1%N 1%N, temp_entry s1 1%N 2%N) =
     (false, true, Some true, Some false) /\
   snd (step c s1 (OSend 2%N 4%N 10)) = false /\ snd (step c s1 (OSend 4%N 2%N 10)) = true /\
   snd (step c s1 (ODelegate 2%N 10)) = false /\ snd (step c s1 (ODeposit 2%N 1%N (0, 5) 400)) = false /\
-  snd (step c s1 (OSubmit 0%N [MSanction [5%N]] (300, 10) 300 400)) = false /\
+  snd (step c s1 (OSubmit 0%N [MSanction [5%N]] (300, 10) 300 400 false)) = false /\
   (is_live s2 1%N, is_live s2 2%N, temps s2, perm s2, is_sanctioned c s2 2%N) = (false, false, [], [], false).
 Proof. vm_compute. repeat split. Qed.
